@@ -52,7 +52,7 @@ try:
                 r["demo_with_patch_rc"] = rc
             checks = {}
             for chk in [prop] + EXTRA.get(key, []):
-                rc, out = sh("cd /verif && ./check %s --tier quick" % chk, env={"VERIF_REPO": WT})
+                rc, out = sh("cd /verif && ./check %s --tier quick" % chk, env={"VERIF_REPO": WT, "VERIF_EVIDENCE_DIR": "/verif/out/evidence_scratch"})
                 lines = [l for l in out.splitlines() if l.startswith("VIOLATION") or l.startswith("RESULT") or "signature" in l or l.startswith("MACHINERY")]
                 checks[chk] = {"rc": rc, "first": lines[:3], "result": [l for l in lines if l.startswith("RESULT")][-1:]}
             r["checks"] = checks
